@@ -331,6 +331,20 @@ where
                 self.inner.sink.is_disconnect_sent();
                 self.inner.control(ProtocolMessage::remote_disconnect()).await
             }
+            Decoded::Packet(Packet::SubscribeAck { .. }, _) => {
+                Err(ProtocolError::unexpected_packet(
+                    packet_type::SUBACK,
+                    "Packet of the type is not expected from client",
+                )
+                .into())
+            }
+            Decoded::Packet(Packet::UnsubscribeAck { .. }, _) => {
+                Err(ProtocolError::unexpected_packet(
+                    packet_type::UNSUBACK,
+                    "Packet of the type is not expected from client",
+                )
+                .into())
+            }
             Decoded::Packet(..) => Ok(None),
         }
     }
